@@ -35,7 +35,7 @@ P = 'circus.process:Process.'
 
 
 def check(run, ctx):
-    run.each(ctx, [r1, r2, r3, r4, r5, r6, r7, r8, r9, r10])
+    run.each(ctx, [r1, r2, r3, r4, r5, r6, r7, r8, r9, r10, r11])
 
 
 def r10(run, ctx):
@@ -73,11 +73,8 @@ def r9(run, ctx):
         cfg = ctx.cfg(m)
         ups = ctx.direct_nodes(m, ev_setattr('_stopping', True))
         downs = ctx.direct_nodes(m, ev_setattr('_stopping', False))
-        from sa.dataflow import reaching_defs
-        rdm = reaching_defs(ctx, m)
-        going_down = [x for x in ctx.live_nodes(m) if any(
-            astq.call_last(c) == 'add_callback' and c.args and
-            all('stop' in a.text() for a in rdm.expand(x, c.args[0])) for c in x.calls())]
+        from rules.common import loop_stop_nodes
+        going_down = [x for x, _ in loop_stop_nodes(ctx, m)]
         for u in ups:
             n += 1
             r = cfg.reach(u, avoid=downs + going_down, labels_excluded=('exc', 'raise', 'reraise'))
@@ -551,3 +548,13 @@ def r7(run, ctx):
         fd.rule = 'R7'
         fd.key = fd.key.replace('R4|', 'R7|', 1)
         run.findings.append(fd)
+
+
+def r11(run, ctx):
+    from rules import c17
+    run.share(ctx, c17.r2, 'R2', 'R11', "registering a new worker's pipes cannot fail on a "
+              'reused descriptor number (shared with C17 R2, the stale-descriptor reset): '
+              'add_redirections runs between the creation of the child and its entry into the '
+              'process table, and spawn_process swallows the ValueError of a descriptor "added '
+              'twice" - the child then runs in no watcher\'s table, is never stopped, and the '
+              'watcher stays short of a worker')
